@@ -359,6 +359,8 @@ PRECISION = [
     ([3.0e6 + 0.125 * i for i in range(12)], [('C', 3.0e6 + 0.3), ('C', 3.0e6 + 1.3), ('D', 0.3), ('D', 0.7), ('D', 1.3), ('F', 0.3), ('E', 1.5e6 + 0.2), ('E', 1.0e6 + 0.2)]),
     # beyond the single-precision range, and a ranking that ends in values that differ in the last bits only
     ([1.0, 1e37, 5e38, 1e39, 1e300], [('C', 1e38), ('C', 6e38), ('C', 1e40), ('D', 2e39), ('E', 2e38), ('F', 4e38)]),
+    # thresholds a few parts in 10^6 away from a statistic (not on it): "close to the threshold" is still one side or the other
+    ([30.0, 30.0002, 30.0004, 31.0, 62.0], [('C', 30.0001), ('C', 30.0003), ('C', 29.9999), ('D', 0.0001), ('D', 0.0003), ('D', 1.00001), ('E', 15.00005), ('E', 10.00005), ('E', 30.0001), ('F', 0.00005), ('F', 0.00015)]),
     ([2.0, 2.0 + 1e-13, 2.0 + 2e-13, 2.0 + 1e-9, 2.0 + 1e-6], [('C', 2.0 + 1.5e-13), ('C', 2.0 + 5e-10), ('D', 1.5e-13), ('D', 5e-10), ('D', 5e-7), ('F', 0.4e-13), ('E', 1.0 + 2e-10)]),
 ]
 
@@ -368,9 +370,14 @@ def run_case(ctx, case, rec, d):
         chi, sels = PRECISION[case['which']]
         for nd, flags in FLAGSETS.items():
             # no statistic may sit on a threshold (the comparison there is decided by the last bit)
-            att = selref.attained(list(chi), nd)
+            best_ = chi[0]
             for f_, v_ in sels:
-                assert all(abs(x - v_) > 4 * np.spacing(abs(v_)) for x in att if x == x and abs(x) != INF), (chi, nd, f_, v_)
+                att = [{'C': c_, 'D': c_ - best_, 'E': c_ / nd, 'F': (c_ - best_) / nd}[f_] for c_ in chi]          # the statistic of this form
+                for c_, x in zip(chi, att):
+                    if x != x or abs(x) == INF:
+                        continue
+                    noise = 8 * np.spacing(max(abs(v_), abs(c_), abs(best_) if f_ in 'DF' else 0.0))          # rounding noise of forming this statistic, whichever way
+                    assert abs(x - v_) > noise, (chi, nd, f_, v_)
             _explore(rec, ('precision', case['which']), list(chi), nd, flags, nd == 2, False, True, SELECTORS=[('A', 0), ('N', 2)] + sels)
         rec.cls('statistics-need-double-precision')
         return
